@@ -152,6 +152,8 @@ def _solver(ex, args, kwargs, node):
 def _push(ex, s, args, kwargs, node):
     o = ex.st.obj(s.ref)
     ex.st.update(s.ref, pushed=o["pushed"] + [o["A"]])
+    if "S" in o:
+        ex.st.update(s.ref, pushedS=o.get("pushedS", []) + [o["S"]])
     return VNone()
 
 
@@ -163,6 +165,12 @@ def _pop(ex, s, args, kwargs, node):
         ex.oblige("noraise.pop", node, z3.BoolVal(False), "pop on a solver whose stack is not known to be non-empty")
         raise PathEnd()
     ex.st.update(s.ref, A=o["pushed"][-1], pushed=o["pushed"][:-1])
+    if "S" in o:
+        ps = o.get("pushedS", [])
+        if ps:
+            ex.st.update(s.ref, S=ps[-1], pushedS=ps[:-1])
+        else:
+            ex.st.update(s.ref, S=ex.st.fresh_const("S", L.LForm.sort))  # (a push made under a loop cut)
     return VNone()
 
 
@@ -488,7 +496,7 @@ def _z3solver(ex, args, kwargs, node):
 
 @fn("z3.Optimize", "z3.z3.Optimize", tb="TB-z3")
 def _z3opt(ex, args, kwargs, node):
-    ref = ex.st.alloc({"kind": "solver", "A": L.FULL, "pushed": [], "base": None, "timeout": False, "optimize": True})
+    ref = ex.st.alloc({"kind": "solver", "A": L.FULL, "pushed": [], "base": None, "timeout": False, "optimize": True, "S": L.LForm.nil, "pushedS": []})
     return VRef(ref, TSolverT)
 
 
@@ -501,8 +509,12 @@ def _z3set(ex, s, args, kwargs, node):
 
 @meth("Solver", "add_soft", tb="TB-z3")
 def _z3addsoft(ex, s, args, kwargs, node):
-    # soft constraints do not change the set of admissible worlds
-    _forms(ex, args[:1])
+    # soft constraints do not change the set of admissible worlds; they are recorded (list S)
+    (f,) = _forms(ex, args[:1])
+    o = ex.st.obj(s.ref)
+    if "S" in o and not f.t.eq(L.f_true):
+        # (a soft constraint that is literally True is never violated: irrelevant to the optimum)
+        ex.st.update(s.ref, S=L.LForm.snoc(o["S"], f.t))
     return VNone()
 
 
@@ -515,6 +527,55 @@ def _z3check(ex, s, args, kwargs, node):
         gaveup = ex.st.fresh_const("gaveup", L.Bool)
         return VInt(z3.If(gaveup, UNKNOWN, z3.If(sat, SAT, UNSAT)))
     return VInt(z3.If(sat, SAT, UNSAT))
+
+
+# the model of an Optimize after check() == sat (TB-z3, MaxSAT optimum in its inclusion form):
+# it denotes a world w of the hard set such that no world of the hard set violates a strict
+# subset of the soft constraints w violates
+SubViol = z3.Function("SubViol", L.LForm.sort, L.World, L.World, L.Bool)  # every soft constraint violated by w1 is violated by w2
+_svw = z3.Function("SubViol!w", L.LForm.sort, L.World, L.World, L.Int)
+_svS = z3.Const("_sv_S", L.LForm.sort)
+_sv1, _sv2 = z3.Consts("_sv_1 _sv_2", L.World)
+_svk = z3.Int("_sv_k")
+_sv = SubViol(_svS, _sv1, _sv2)
+_svb = lambda k: z3.Implies(z3.Not(z3.Select(L.M(L.LForm.at(_svS, k)), _sv1)), z3.Not(z3.Select(L.M(L.LForm.at(_svS, k)), _sv2)))
+L.TH.axiom([_svS, _sv1, _sv2, _svk], [_sv, L.LForm.at(_svS, _svk)], z3.Implies(z3.And(_sv, 0 <= _svk, _svk < L.LForm.len(_svS)), _svb(_svk)), "SubViol.elim")
+_w = _svw(_svS, _sv1, _sv2)
+L.TH.axiom([_svS, _sv1, _sv2], [_sv], z3.Implies(z3.Not(_sv), z3.And(0 <= _w, _w < L.LForm.len(_svS), z3.Not(_svb(_w)))), "SubViol.intro")
+
+
+OptModel = z3.Function("OptModel", L.World, L.WSet, L.LForm.sort, L.Bool)  # w is an optimum of the soft list S over the hard set A
+_omA = z3.Const("_om_A", L.WSet)
+_om = OptModel(_sv2, _omA, _svS)
+L.TH.axiom([_sv2, _omA, _svS], [_om], z3.Implies(_om, z3.Select(_omA, _sv2)), "OptModel.member")
+for _trig in (z3.Select(_omA, _sv1), SubViol(_svS, _sv1, _sv2)):
+    L.TH.axiom([_sv2, _omA, _svS, _sv1], [_om, _trig], z3.Implies(z3.And(_om, z3.Select(_omA, _sv1), SubViol(_svS, _sv1, _sv2)), SubViol(_svS, _sv2, _sv1)), "OptModel.optimal")
+
+
+@meth("Solver", "model", tb="TB-z3")
+def _z3model(ex, s, args, kwargs, node):
+    o = ex.st.obj(s.ref)
+    m = VOpaque("z3 model", ex.st.fresh_const("model", Opq))
+    m.kind = "z3model"
+    w = wof(m.t)
+    ex.st.assume(z3.Select(o["A"], w))  # (model() is only defined after check() == sat)
+    if "S" in o:
+        ex.st.assume(OptModel(w, o["A"], o["S"]))
+    return m
+
+
+@meth("z3model", "eval", tb="TB-z3")
+def _z3eval(ex, m, args, kwargs, node):
+    (f,) = _forms(ex, args[:1])
+    return VBool(z3.Select(L.M(f.t), wof(m.t)))  # the truth value of the formula in the model's world
+
+
+@fn("z3.is_true", "z3.z3.is_true", tb="TB-z3")
+def _is_true(ex, args, kwargs, node):
+    (v,) = args
+    if isinstance(v, VBool):
+        return v
+    raise Unsupported("is_true of something other than the value of model.eval")
 
 
 @meth("Solver.converter", "convert", tb="TB-solver")
